@@ -6,6 +6,7 @@ from sa.dataflow import Poly, cmp_key, cmp_atoms
 from rules.ledger import P
 from rules.C12 import enclosing_if
 
+TECHNIQUE = 'static analysis (ast): polynomial value ids of the accrual formula (rate x cash x elapsed / year, markup by sign), typestate-style rules for the accrual clock (query vs accrue, single writer), CFG ordering and constant tables'
 EXPLANATION = (
     "Decides the structural clauses of C06 in Broker.accrued_interest by symbolic evaluation (value-id / polynomial domain, no execution): "
     "(S1) the rate applied is reference mid - markup x sign(cash balance), i.e. idle cash earns rate - markup and borrowed cash pays rate + markup; "
